@@ -451,6 +451,114 @@ fn random_value(rng: &mut Rng, mode: usize) -> f64 {
     }
 }
 
+/// `base` moved by `k` units in the last place (through the bit pattern; crosses zero into the subnormals)
+fn ulps(base: f64, k: i64) -> f64 {
+    if base == 0.0 {
+        let m = f64::from_bits(k.unsigned_abs());
+        return if k < 0 { -m } else { m };
+    }
+    let b = base.to_bits() as i64;
+    // for a negative double a larger bit pattern is a smaller value
+    let nb = if base > 0.0 { b + k } else { b - k };
+    f64::from_bits(nb as u64)
+}
+
+/// the values a short-circuit test "is this coefficient (approximately) `base`?" separates: `base` itself, 1 and 2
+/// ulp either side, and absolute distances around `f64::EPSILON` (2^-53, 1e-16, EPS/2, EPS, 2 EPS; tiny ones for 0)
+fn near(base: f64) -> Vec<f64> {
+    let mut v = vec![base];
+    for k in [1i64, 2] {
+        v.push(ulps(base, k));
+        v.push(ulps(base, -k));
+    }
+    let eps = f64::EPSILON;
+    for d in [eps / 2.0, 1e-16, eps * 0.75, eps, 2.0 * eps, 1e-12] {
+        v.push(base + d);
+        v.push(base - d);
+    }
+    if base == 0.0 {
+        v.push(f64::MIN_POSITIVE);
+        v.push(-f64::MIN_POSITIVE);
+        v.push(-0.0);
+    }
+    v.dedup_by(|a, b| a.to_bits() == b.to_bits());
+    v
+}
+
+/// 3n. transforms a hair away from a shape an optimisation might test for (identity, zero, pure translation, scale
+/// only, uniform scale, symmetric / equal cross terms): every coefficient at its shape value or just beside it — all
+/// six moved at once and one at a time — applied to the origin and to points with huge coordinates, where one ulp
+/// of a coefficient is whole units of the result.  An approximate comparison (`(a - b).abs() < EPSILON`) or a
+/// skipped term shows on exactly these.
+fn gen_near_shapes(rng: &mut Rng, out: &mut dyn Write) {
+    let big = f64::MAX / 4.0;
+    let points: [(f64, f64); 12] = [
+        (0.0, 0.0),
+        (-0.0, -0.0),
+        (1.0, 1.0),
+        (4503599627370496.0, 4503599627370496.0),   // 2^52
+        (9007199254740992.0, 9007199254740992.0),   // 2^53
+        (-9007199254740992.0, 9007199254740991.0),
+        (1e18, 1e18),
+        (10.0, 1e18),
+        (1e18, -10.0),
+        (big, -big),
+        (-big, big),
+        (123.0, -457.0),
+    ];
+    let shapes: [[f64; 6]; 9] = [
+        [1.0, 0.0, 0.0, 1.0, 0.0, 0.0],       // identity
+        [0.0, 0.0, 0.0, 0.0, 0.0, 0.0],       // zero
+        [1.0, 0.0, 0.0, 1.0, 37.0, -12.5],    // pure translation
+        [2.5, 0.0, 0.0, -3.0, 0.0, 0.0],      // scale only
+        [2.5, 0.0, 0.0, -3.0, 37.0, -12.5],   // scale and offset, no cross terms
+        [3.0, 0.0, 0.0, 3.0, 0.0, 0.0],       // uniform scale
+        [1.0, 0.25, 0.25, 1.0, 0.0, 0.0],     // equal cross terms
+        [0.0, 1.0, -1.0, 0.0, 0.0, 0.0],      // quarter turn
+        [-1.0, 0.0, 0.0, 1.0, 0.0, 0.0],      // mirror
+    ];
+    let emit = |out: &mut dyn Write, c: &[f64; 6], p: (f64, f64)| {
+        let v = [c[0], c[1], c[2], c[3], c[4], c[5], p.0, p.1];
+        if v.iter().all(|x| x.is_finite()) {
+            emit_transform(out, &v);
+        }
+    };
+    for shape in shapes.iter() {
+        let nears: Vec<Vec<f64>> = shape.iter().map(|b| near(*b)).collect();
+        let n = nears.iter().map(|v| v.len()).max().unwrap();
+        // all six beside their shape value at once (the j-th neighbour of each), every point
+        for j in 0..n {
+            let mut c = [0.0f64; 6];
+            for i in 0..6 {
+                c[i] = nears[i][j % nears[i].len()];
+            }
+            for p in points.iter() {
+                emit(out, &c, *p);
+            }
+        }
+        // all six beside it, independently chosen neighbours
+        for _ in 0..40 {
+            let mut c = [0.0f64; 6];
+            for i in 0..6 {
+                c[i] = *rng.pick(&nears[i]);
+            }
+            for p in points.iter() {
+                emit(out, &c, *p);
+            }
+        }
+        // one at a time, the others exactly on the shape
+        for i in 0..6 {
+            for x in nears[i].iter() {
+                let mut c = *shape;
+                c[i] = *x;
+                for p in points.iter() {
+                    emit(out, &c, *p);
+                }
+            }
+        }
+    }
+}
+
 pub fn gen(tier: &str, seed: u64, out: &mut dyn Write) {
     if !cfg!(feature = "kurbo") {
         eprintln!("C20: the generator needs the harness built with --features kurbo");
@@ -483,6 +591,8 @@ pub fn gen(tier: &str, seed: u64, out: &mut dyn Write) {
         let coords = distinct_coords(&mut rng, s.chars().count(), span);
         emit_path(out, &s, &coords);
     }
+    // 3n. near-shape transforms (identity, zero, translation, scale-only, ... +- a hair) on the origin and on huge points
+    gen_near_shapes(&mut rng, out);
     // 3a. transforms, structured: every pattern of the six coefficients over {0, 1, -1, other} (4^6 = 4096
     //     patterns: identity, pure translation, unit scales with shear, mirrored axes, ...), two points each
     for pat in 0..4096usize {
